@@ -47,8 +47,14 @@ def gen_section_body(rng, sec, plant):
             planted = pos
     elif plant == 'runtime':
         pos = len(lines)
-        lines.append('zz%d = 1/0' % sec)
-        planted = pos
+        if rng.random() < 0.35:
+            # the failure is raised inside library code the section calls: the line is still the section's own
+            lines.append('import random')
+            lines.append('zz%d = random.choice([])' % sec)
+            planted = pos + 1
+        else:
+            lines.append('zz%d = 1/0' % sec)
+            planted = pos
     elif plant == 'callerr':
         pos = rng.randrange(len(lines) + 1)
         lines.insert(pos, 'def fn%d():' % sec)
